@@ -1,3 +1,59 @@
-Require Import Base Opcode Tables Ops.
-Example placeholder_C19 : True. Proof. exact I. Qed.
-Print Assumptions placeholder_C19.
+(* C19 — Version and date encodings preserve order. Only statements; proofs in Proofs/OpsVersion.v, Proofs/OpsDate.v. *)
+Require Import Base Opcode Tables Ops OpsVersion OpsDate.
+Open Scope Z_scope.
+
+(* the operator on a string whose dot-separated components parse (strconv.ParseInt model) to numbers 0..9999
+   returns the base-10000 numeral of the components padded with zeros to the valid length *)
+Theorem C19_version_encodes : forall m dl s vs n,
+  parses (split 46 s) vs -> Forall digit vs -> valid_len n ->
+  version_conv m dl [VStr s; VInt n] = Ok (VInt (value_of (pad (Z.to_nat n) vs) 0)) /\
+  (valid_len dl -> version_conv m dl [VStr s] = Ok (VInt (value_of (pad (Z.to_nat dl) vs) 0))).
+Proof. exact version_encodes. Qed.
+
+(* comparing the encodings = comparing the padded component lists lexicographically; no wrap-around *)
+Theorem C19_version_order : forall n va vb, (n <= 4)%nat -> Forall digit va -> Forall digit vb ->
+  (value_of (pad n va) 0 ?= value_of (pad n vb) 0) = lexcmp (pad n va) (pad n vb) /\
+  0 <= value_of (pad n va) 0 < B ^ Z.of_nat n /\ B ^ Z.of_nat n <= B ^ 4 /\ B ^ 4 < two63.
+Proof. exact version_order. Qed.
+Theorem C19_lexcmp_eq : forall n va vb, lexcmp (pad n va) (pad n vb) = Eq <-> pad n va = pad n vb.
+Proof. exact lexcmp_pad_spec. Qed.
+
+(* components of 10000 or more, non-numeric components and valid lengths outside 1..4 are rejected *)
+Theorem C19_version_rejects : forall m dl s n,
+  (valid_len n -> Exists bad_component (firstn (Z.to_nat n) (split 46 s)) ->
+     version_conv m dl [VStr s; VInt n] = Err (EExec (mname (vmode_key m)))) /\
+  (~ valid_len n -> version_conv m dl [VStr s; VInt n] = Err (EExec (mname (vmode_key m)))) /\
+  (forall ps, length ps <> 1%nat -> length ps <> 2%nat -> version_conv m dl ps = Err (ECount (mname (vmode_key m)))).
+Proof. exact version_rejects. Qed.
+
+Theorem C19_split_join : forall sep l, l <> [] -> Forall (fun a => ~ In sep a) l -> split sep (join sep l) = l.
+Proof. exact split_join. Qed.
+
+(* dates: chronological order of valid civil dates/times = order of the encoded UTC Unix seconds *)
+Theorem C19_civil_monotone : forall y1 m1 d1 y2 m2 d2,
+  valid_date y1 m1 d1 -> valid_date y2 m2 d2 -> date_lt y1 m1 d1 y2 m2 d2 ->
+  days_from_civil y1 m1 d1 < days_from_civil y2 m2 d2.
+Proof. exact civil_monotone. Qed.
+Theorem C19_unix_monotone : forall a b, valid_tm a -> valid_tm b -> tm_lt a b -> unix_of a < unix_of b.
+Proof. exact unix_monotone. Qed.
+
+(* non-vacuity *)
+Example C19_ex_versions :
+  version_conv VVersion 3 [VStr (ss "1.9999.3")] = Ok (VInt 199990003) /\
+  version_conv VVersion 3 [VStr (ss "2.0.0")] = Ok (VInt 200000000) /\
+  version_conv VVersion 3 [VStr (ss "1.10000.0")] = Err (EExec (ss "version")) /\
+  version_conv VVersion 3 [VStr (ss "1.2"); VInt 4] = Ok (VInt 1000200000000) /\
+  version_conv VVersion 3 [VStr (ss "1.2"); VInt 5] = Err (EExec (ss "version")).
+Proof. vm_compute. repeat split. Qed.
+Example C19_ex_parses : parses (split 46 (ss "1.9999.3")) [1; 9999; 3] /\ Forall digit [1; 9999; 3].
+Proof. split; [repeat constructor | repeat constructor; unfold B, version_base; lia]. Qed.
+Example C19_ex_dates :
+  parse_time (ss "2006-01-02") (ss "2024-02-29") = Some 1709164800 /\
+  parse_time (ss "2006-01-02") (ss "2023-02-29") = None /\
+  parse_time (ss "2006-01-02 15:04:05") (ss "1970-01-01 00:00:01") = Some 1.
+Proof. vm_compute. repeat split. Qed.
+
+Print Assumptions C19_version_order.
+Print Assumptions C19_version_encodes.
+Print Assumptions C19_version_rejects.
+Print Assumptions C19_unix_monotone.
